@@ -212,7 +212,7 @@ def _case_xpath(draw):
     t = draw(st.sampled_from(FULL + FULL + FULL + GTYPES))
     a = draw(_value(xsd, yearless=t in ('gMonthDay', 'gDay', 'gMonth', 'time')))
     return {'xsd': xsd, 't': t, 'a': a, 'b': draw(_second(xsd, a, t)), 'x': draw(_dur_us()), 'm': draw(_months()),
-            'ctz': draw(st.sampled_from([None, None, 0, 300, -300, 840, -840, 330, 'r'])) if True else None,
+            'ctz': draw(st.sampled_from([None, None, 0, 300, -300, 840, -840, 330, 'r'])),
             'adj': draw(st.sampled_from([0, 600, -600, 840, -840, 330, -1, 'r'])),
             'parser': draw(st.sampled_from(['2', '2', '31']))}
 
@@ -1405,7 +1405,7 @@ def judge_durgrid(case, rec: Recorder | None = None):
             try:
                 obs[name] = f(A, B)
             except Exception as e:
-                discs.append(Disc(f'C11/durgrid/' + escape_bucket('C11', e).replace('C11/escape/', 'escape:') + f'/{name}', want[name], repr(e), f'{A} {name} {B}'))
+                discs.append(Disc('C11/durgrid/' + escape_bucket('C11', e).replace('C11/escape/', 'escape:') + f'/{name}', want[name], repr(e), f'{A} {name} {B}'))
     bad = sorted(n for n in obs if obs[n] != want[n])
     if bad:
         discs.append(Disc('C11/durgrid/order/' + ('incomparable' if rel is None else 'comparable'), {n: want[n] for n in bad},
